@@ -545,9 +545,21 @@ def run(chk):
     model = vlib.model_bin("handshake")
     chk.proof_gate()
     emodel = enginelib.Model()
-    root = os.path.join(vlib.WORK, "tmp", "c06")
+    root = os.path.join(vlib.WORK, "tmp", "c06-%d" % os.getpid())     # private: checks may run concurrently
     shutil.rmtree(root, ignore_errors=True)
     os.makedirs(root, exist_ok=True)
+    try:
+        return run_in(chk, drv, model, emodel, root)
+    finally:
+        try:
+            emodel.close()
+        except Exception:
+            pass
+        if not chk.violations:
+            shutil.rmtree(root, ignore_errors=True)
+
+
+def run_in(chk, drv, model, emodel, root):
     rng = chk.rng
     ctx = dict(drv=drv, model=model, emodel=emodel, root=root, orders=set(), hid=0, proto_checked=0, hs_checked=0, model_runs=0, model_disagreements=[])
 
@@ -655,7 +667,6 @@ def run(chk):
             chk.notes["tsan"] = "the ThreadSanitizer build failed in this sandbox; data races were NOT sampled: %s" % str(e)[-400:]
     else:
         chk.notes["tsan"] = "quick tier: ThreadSanitizer runs only in the thorough tier"
-    emodel.close()
 
     # ---- model / implementation correspondence (spec engine)
     if ctx["model_disagreements"] and not chk.violations:
@@ -693,7 +704,7 @@ def replay(chk, rp):
         return run(chk)
     variant = rp.get("variant", "hooks")
     drv = vlib.build_drivers(["engine_driver"], variant)["engine_driver"]
-    root = os.path.join(vlib.WORK, "tmp", "c06-replay")
+    root = os.path.join(vlib.WORK, "tmp", "c06-replay-%d" % os.getpid())
     shutil.rmtree(root, ignore_errors=True)
     env = dict(os.environ, TSAN_OPTIONS="halt_on_error=0 exitcode=0") if variant == "tsan" else None
     bad = 0
